@@ -211,6 +211,39 @@ def layer_far():
             yield ("B", ("far-alone", lab), (t, t + d, (("I", "i", t, t + d, ((t, t + d, lab or "z"),)),)), 1e-8)
 
 
+def layer_size(thorough):
+    """the size axis of a file: many tiers (two-digit tier indices), many entries (two- and three-digit entry indices), long labels and
+    names (hundreds / thousands of characters, dozens of lines, dozens of quote characters), texts of more than 8192 / 65536 characters"""
+    def itier(name, n, lab=lambda i: "w%d" % i, gap=True):
+        e = tuple((1.0 * i, 1.0 * i + (0.75 if gap else 1.0), lab(i)) for i in range(n))
+        return ("I", name, 0.0, float(max(n, 1)), e)
+
+    def ptier(name, n, lab=lambda i: "p%d" % i):
+        return ("P", name, 0.0, float(max(n, 1)), tuple((i + 0.5, lab(i)) for i in range(n)))
+
+    # many tiers
+    for k in (9, 10, 11, 12, 25, 100) if thorough else (9, 10, 11, 25):
+        tiers = tuple(itier("iv%d" % i, 3) if i % 2 == 0 else ptier("pt%d" % i, 2) for i in range(k))
+        yield ("S", ("tiers", k), (0.0, 3.0, tuple((t[0], t[1], 0.0, 3.0, t[4]) for t in tiers)), 1e-8)
+        only_i = tuple(itier("iv%d" % i, 2) for i in range(k))
+        yield ("S", ("interval-tiers", k), (0.0, 2.0, tuple((t[0], t[1], 0.0, 2.0, t[4]) for t in only_i)), 1e-8)
+    # many entries
+    for n in (9, 10, 11, 12, 99, 100, 101, 257, 258, 400, 1000) if thorough else (10, 11, 100, 258, 400):
+        for gap in (True, False):
+            yield ("S", ("entries", n, gap), (0.0, float(n), (itier("i", n, gap=gap), ptier("p", n))), 1e-8)
+    # long labels / names, many quotes, many lines
+    q = '"'
+    longs = [("quotes", q.join("w%d" % i for i in range(m + 1))) for m in (8, 9, 10, 30)] + \
+            [("quote-pairs", " ".join(q + "w%d" % i + q for i in range(m))) for m in (4, 5, 16)] + \
+            [("chars", "x" * m) for m in (255, 256, 300, 1000, 8191, 8192, 9000)] + \
+            [("lines", "\n".join("line %d" % i for i in range(m))) for m in (10, 40)] + \
+            [("unicode", "\u00e9\u4e2d" * m) for m in (200, 5000)]
+    for kind, lab in longs:
+        yield ("S", ("label", kind, len(lab)), skeleton(l1=lab, pm=lab), 1e-8)
+        if "\n" not in lab:
+            yield ("S", ("name", kind, len(lab)), skeleton(iname=lab, pname=lab + "2"), 1e-8)
+
+
 def layer_structure(thorough):
     G = (0.0, 1.0, 2.0, 3.0)
     ivs = [()] + [((a, b, l),) for a, b in itertools.combinations(G, 2) for l in ("x", "")] + \
@@ -339,6 +372,10 @@ def parts(tier):
                   rule="%d (time, duration) pairs with the time at 8e6 .. 1.1e12 s and a duration of 1e-7 .. 8e-3 s (above the 1e-8 threshold but below "
                        "1e-14 or 1e-9 of the time value), as a labelled / unlabelled stretch between two ordinary intervals and as the only entry, "
                        "saved with the default minimumIntervalLength in all 16 configurations" % len(FAR), bounds={}, snippet=_snippet, chunk=1),
+        InputPart("size", lambda: layer_size(not quick), check,
+                  rule="the size axis: 9-25 (thorough 100) tiers; tiers of 10-400 (thorough 1000) entries, with and without gaps; labels and names with 8-30 quote "
+                       "characters, 255-9000 characters, 10-40 lines, 400-10000 non-ASCII characters (texts longer than 8192 and 65536 characters) - each in "
+                       "all 16 format / flag configurations", bounds={}, snippet=_snippet, chunk=1),
         InputPart("structure", lambda: layer_structure(not quick), check,
                   rule="all combinations of interval lists (0-3 entries incl. empty labels) x point lists x tier spans "
                        "(equal/narrower/wider than the file's) x file spans x tier order%s; non-trivial = distinct shape"
